@@ -126,6 +126,47 @@ def run(ck):
                 ck.violation(f'{kn}: categorical AGOP differs from the dense AGOP restricted to the blocks by {devA:.3g} ({nout} outputs, centring={centring}) on {desc}',
                              dict(desc, dev=devA, nout=nout, centring=centring, coefs=coefs.tolist()),
                              key=json.dumps(dict(site='agop-blocks', kernel=kn, centring=centring)))
+    # ---------- model level: xRFM fitted with categorical_info (fast path inside every leaf) vs the same fit without it ----------
+    for i in range(ck.n(4, 16)):
+        kern, extra = [('l2', {}), ('lpq', dict(norm_p=1.5)), ('l2', {}), ('lpq', dict(norm_p=2.0))][i % 4]
+        nnum = [2, 0, 1, 3][i % 4]; levels = [[3, 2], [4], [2, 2, 3], [5]][i % 4]
+        d = nnum + sum(levels); n = 70
+        num_idx = np.arange(nnum); cat_idx = []; o = nnum
+        for lv in levels:
+            cat_idx.append(np.arange(o, o + lv)); o += lv
+        def mrows(k):
+            R = np.zeros((k, d), dtype=np.float32)
+            R[:, :nnum] = rng.standard_normal((k, nnum))
+            for g, idx in enumerate(cat_idx):
+                R[np.arange(k)[:, None], idx[None, :]] = np.eye(levels[g], dtype=np.float32)[rng.integers(0, levels[g], size=k)]
+            return R
+        X, Xv, Qm = mrows(n), mrows(25), mrows(9)
+        nout = [1, 2][i % 2]
+        Y = rng.standard_normal((n, nout)).astype(np.float32); Yv = rng.standard_normal((25, nout)).astype(np.float32)
+        cinfo = dict(numerical_indices=torch.tensor(num_idx, dtype=torch.long), categorical_indices=[torch.tensor(ix, dtype=torch.long) for ix in cat_idx],
+                     categorical_vectors=[torch.eye(lv) for lv in levels])
+        outs = {}
+        for tag, ci in (('dense', None), ('fast', cinfo)):
+            xr.seed_all(1500 + i)
+            mm = xr.xRFM(rfm_params=xr.default_rfm_params(kernel=kern, iters=0, reg=1e-2, bandwidth=3.0, exponent=[1.0, 1.2][i % 2], fast_categorical=(ci is not None), **extra),
+                         max_leaf_size=1000, verbose=False, use_temperature_tuning=False, categorical_info=ci)
+            try:
+                with xr.quiet():
+                    mm.fit(torch.tensor(X), torch.tensor(Y), torch.tensor(Xv), torch.tensor(Yv))
+                    outs[tag] = (np.asarray(mm.predict(torch.tensor(Qm)), dtype=np.float64), mm)
+            except Exception as e:
+                ck.notes.append(f'model-level categorical fit ({tag}, {kern}) raised {e!r}'[:200])
+        if len(outs) < 2:
+            ck.count('model-level categorical fit raised'); continue
+        ck.case(dict(kind='model-categorical', kernel=kern, levels=levels, nnum=nnum, nout=nout), nontrivial=True); ck.count(f'model-level categorical {kern}')
+        dev = float(np.max(np.abs(outs['dense'][0] - outs['fast'][0])))
+        scale = 1.0 + float(np.abs(outs['dense'][0]).max())
+        if not outs['fast'][1].trees[0]['model'].kernel_obj.handle_categorical:
+            ck.violation(f'categorical_info and fast_categorical=True were given but the leaf kernel does not use the categorical path ({kern})', dict(kernel=kern), key='model-cat-ignored')
+        if dev > 2e-4 * scale:
+            ck.violation(f'xRFM fitted with categorical_info predicts differently from the same fit on the dense one-hot columns: max dev {dev:.3g} '
+                         f'(kernel {kern}, levels {levels}, {nnum} numerical, {nout} outputs)', dict(kernel=kern, levels=levels, nnum=nnum, nout=nout, dev=dev),
+                         key=json.dumps(dict(site='model-categorical', kernel=kern)))
     res = ck.run_lemma_files('cat', kreal.RHEADER, lemmas, shard=3, timeout=900)
     bad = [lmeta[k] for k, v in res.items() if not v]
     ck.obligation(f'correspondence: {len(lemmas)} fast-path kernel entries within tolerance of the Coq dense op-sequence model on the one-hot rows (interval-certified)',
